@@ -108,10 +108,15 @@ func newC05Cast() *c05Cast {
 		{"client-own-named-like-issuer-case", world.RawDN("O", "verif", "CN", "VERIF ISSUING CA RSA")},
 		{"client-own-named-like-issuer-blank", world.RawDN("O", "verif", "CN", "verif  issuing CA rsa")},
 		{"client-own-named-like-issuer-order", world.RawDN("CN", "verif issuing CA rsa", "O", "verif")},
+		// ... and a client whose certificate carries exactly the distinguished name of its issuer
+		{"client-own-named-like-issuer-exactly", nil},
 	} {
+		if v.dn == nil {
+			v.dn = c.issuer.Cert.RawSubject
+		}
 		l := world.Issue(c.issuer, world.CertOpt{CN: v.name, RawSubject: v.dn, Serial: big.NewInt(int64(4250 + i)), KeyKind: "rsa", KeyIdx: 7, OCSP: []string{ocspURL}, NoAKI: true})
 		l = world.WithoutExtension(l, c.issuer, world.OIDAKI)
-		if len(l.Cert.AuthorityKeyId) != 0 || string(l.Cert.RawSubject) == string(c.issuer.Cert.RawSubject) {
+		if len(l.Cert.AuthorityKeyId) != 0 || (string(l.Cert.RawSubject) == string(c.issuer.Cert.RawSubject)) != (v.name == "client-own-named-like-issuer-exactly") {
 			panic("c05 cast: look-alike leaf")
 		}
 		c.leafLike[v.name] = l
@@ -164,7 +169,7 @@ func (c c05Case) String() string {
 
 var c05Signers = []string{"issuer", "delegated-eku", "delegated-no-eku", "client-own", "stranger-embedded", "stranger-bare", "sibling-ca", "delegated-eku-bare",
 	"delegated-eku-any", "delegated-eku-clientauth", "client-own-eku-any", "stranger-embedded-ocspsigning", "sibling-delegated-eku",
-	"client-own-named-like-issuer-case", "client-own-named-like-issuer-blank", "client-own-named-like-issuer-order",
+	"client-own-named-like-issuer-case", "client-own-named-like-issuer-blank", "client-own-named-like-issuer-order", "client-own-named-like-issuer-exactly",
 	"configured-trusted-responder-of-another-CA-bare", "configured-trusted-responder-of-another-CA-embedded",
 	"rekeyed-CA-configured-as-trusted-responder-client-AKI-names-neither-key", "issuer-embedded-client-AKI-names-neither-key-rekeyed-CA-trusted",
 	// the client certificate carries no subject key identifier and answers about itself, its certificate not sent along
@@ -238,7 +243,7 @@ func (k *c05Cast) build(c c05Case) (body []byte, authentic bool) {
 		a.Signer = k.sibling
 	case "issuer-embedded-client-AKI-names-neither-key-rekeyed-CA-trusted":
 		a.Signer, a.EmbedCert = k.sibling, true
-	case "client-own-named-like-issuer-case", "client-own-named-like-issuer-blank", "client-own-named-like-issuer-order":
+	case "client-own-named-like-issuer-case", "client-own-named-like-issuer-blank", "client-own-named-like-issuer-order", "client-own-named-like-issuer-exactly":
 		// signed by the client's own key, the certificate is not sent along: only a checker which takes the client
 		// certificate for its own issuer can verify this
 		a.Signer, a.Issuer = k.leafLike[c.Signer], k.leafLike[c.Signer]
